@@ -850,9 +850,9 @@ fn finish_key(out: &mut Outcome, cur: &Obs, m: &Model, cfg: Cfg) {
     if cfg.auto {
         // with auto-checkpoint on nearly every statement creates a checkpoint: absolute creation
         // ordinals would make every history its own state.  The state keeps the retained checkpoints
-        // in creation order with kind, auto name and recorded battery, and whether retention has
+        // in creation order with kind (manual / automatic) and recorded battery, and whether retention has
         // already had to purge (created > K)
-        let live_rec: Vec<((bool, &str), Option<Obs>)> = m.live.iter().map(|c| ((c.auto, if c.auto { c.name.as_str() } else { "" }), m.rec.get(&c.ord).map(Obs::cheap))).collect();
+        let live_rec: Vec<(bool, Option<Obs>)> = m.live.iter().map(|c| (c.auto, m.rec.get(&c.ord).map(Obs::cheap))).collect();
         let k = (cur, &live_rec, m.created.min(max_cp() + 1), m.node_creates, m.edge_creates, m.rollbacks.min(2));
         out.key = (h64(&k, 2), h64(&k, 3));
     } else {
@@ -1205,7 +1205,7 @@ fn main() {
     ));
     rep.rule("S: 3..5 CHECKPOINTs within one clock second x entropy seeds 1..8, max_checkpoints=2: the newest two must be listed");
     rep.rule(&format!(
-        "A: the BFS of M on a QueryRouter with CheckpointConfig::with_auto_checkpoint(true).with_interactive_confirm(false): alphabet = {} data statements {:?} (DropTableX = `DROP TABLE t` through QueryRouter::execute, the DROP TABLE path that calls protect_destructive_op) + CHECKPOINT + ROLLBACK TO every retained checkpoint (manual by name, automatic by id); parts {:?}. The state key of A holds the retained checkpoints in creation order by kind / auto name / recorded battery and min(checkpoints created, K+1) instead of absolute ordinals. A battery is recorded before every data statement that may reach protect_destructive_op (DELETE, UPDATE, DROP TABLE, NODE/EDGE/EMBED DELETE; machinery failure if any other kind creates a checkpoint); the checkpoints a data statement creates are learnt from CHECKPOINTS (new id, is_auto) and appended to the reference in creation order (ordinals count manual and automatic together; auto-checkpoints share the clock second of the checkpoint before them). After every statement the listed ids must be exactly the newest K of all checkpoints created so far (else c08:auto-checkpoint:retention-exceeds-limit / retention-keeps-wrong-set); ROLLBACK TO an auto-checkpoint must restore the battery recorded right before the statement that triggered it, followed by the same tail as in M. Which statements create auto-checkpoints is not demanded, only counted",
+        "A: the BFS of M on a QueryRouter with CheckpointConfig::with_auto_checkpoint(true).with_interactive_confirm(false): alphabet = {} data statements {:?} (DropTableX = `DROP TABLE t` through QueryRouter::execute, the DROP TABLE path that calls protect_destructive_op) + CHECKPOINT + ROLLBACK TO every retained checkpoint (manual by name, automatic by id); parts {:?}. The state key of A holds the retained checkpoints in creation order by kind (manual / automatic) and recorded battery, and min(checkpoints created, K+1) instead of absolute ordinals. A battery is recorded before every data statement that may reach protect_destructive_op (DELETE, UPDATE, DROP TABLE, NODE/EDGE/EMBED DELETE; machinery failure if any other kind creates a checkpoint); the checkpoints a data statement creates are learnt from CHECKPOINTS (new id, is_auto) and appended to the reference in creation order (ordinals count manual and automatic together; auto-checkpoints share the clock second of the checkpoint before them). After every statement the listed ids must be exactly the newest K of all checkpoints created so far (else c08:auto-checkpoint:retention-exceeds-limit / retention-keeps-wrong-set); ROLLBACK TO an auto-checkpoint must restore the battery recorded right before the statement that triggered it, followed by the same tail as in M. Which statements create auto-checkpoints is not demanded, only counted",
         alphabet_a.len(),
         alphabet_a,
         describe(&|c| c.cfg.auto)
